@@ -47,17 +47,21 @@ def get_flags(args=(), **opts):
     return _FLAGS[key]
 
 
-def open_fds_from(base):
+def open_fds_from(base, span=192):
+    """open descriptors >= base.  Descriptors are allocated lowest-free, so above the pinned floor they are
+    compact; probing with fstat avoids /proc (slow when many processes hammer it)."""
     out = []
-    for n in os.listdir('/proc/self/fd'):
-        fd = int(n)
-        if fd >= base:
-            try:
-                os.fstat(fd)
-            except OSError:
-                continue
+    miss = 0
+    fd = base
+    while miss < span:
+        try:
+            os.fstat(fd)
             out.append(fd)
-    return sorted(out)
+            miss = 0
+        except OSError:
+            miss += 1
+        fd += 1
+    return out
 
 
 def count_fds():
@@ -98,7 +102,16 @@ class World:
                 os.close(fd)
             except OSError:
                 pass
-        self.ex = LocalFdExecutor('1', NonBlockingQueue(), flags)
+        # Threadless.__init__ allocates a multiprocessing.Event (four POSIX semaphores) that only
+        # _run_forever's shutdown check reads; a threading.Event keeps world construction cheap
+        import threading
+        import proxy.core.work.threadless as TL
+        real_event = TL.multiprocessing.Event
+        TL.multiprocessing.Event = threading.Event
+        try:
+            self.ex = LocalFdExecutor('1', NonBlockingQueue(), flags)
+        finally:
+            TL.multiprocessing.Event = real_event
         self.ex.world = self
         self.ex.selector = selectors.DefaultSelector()
         self.loop = self.ex.loop
@@ -1051,8 +1064,11 @@ def run_real(case, rounds_per_step=3, final_rounds=8):
     try:
         drive(w, case, res, rounds_per_step, final_rounds)
         res['end'] = w.snapshot() if w.dead is None else None
-        gc.collect()
         res['leaked'] = w.leaked()
+        if res['leaked']:
+            # a socket dropped inside a reference cycle is closed by the cycle collector, not at once
+            gc.collect()
+            res['leaked'] = w.leaked()
         return res
     finally:
         w.close()
@@ -1246,3 +1262,259 @@ def standalone_transcript(spec, tcp):
         r = run_real({'conns': [spec], 'sched': [], 'tcp': tcp})
         _STANDALONE[key] = (r['canary'][0], r['dead'])
     return _STANDALONE[key]
+
+
+# ---------------------------------------------------------------------------
+# layer 3: the real handlers seen as abstract works (refinement check)
+# ---------------------------------------------------------------------------
+
+def fd_snapshot(w=None):
+    """{fd: identity} of the sockets of the scenario: every socket is created through the world
+    (client pairs, patched new_socket_connection), so the tracked objects are the complete set;
+    a socket object that is gone or has fileno() -1 is closed"""
+    out = {}
+    if w is None:
+        w = fd_snapshot.world
+
+    def serial(sock):
+        # id() can be reused by a new object allocated where a freed one was: number the objects instead
+        n = _SERIALS.get(sock)
+        if n is None:
+            n = _SERIALS[sock] = next(_COUNTER)
+        return n
+    for s in list(w.socks.values()):
+        if s.fileno() >= 0:
+            out[s.fileno()] = serial(s)
+    for r in w.near:
+        s = r()
+        if s is not None and s.fileno() >= 0:
+            out[s.fileno()] = serial(s)
+    return out
+
+
+import itertools as _it
+import weakref as _wr
+_SERIALS = _wr.WeakKeyDictionary()
+_COUNTER = _it.count(1)
+fd_snapshot.world = None
+
+
+def fd_diff(before, after):
+    closes = [fd for fd in sorted(before) if after.get(fd) != before[fd]]
+    opens = [fd for fd in sorted(after) if before.get(fd) != after[fd]]
+    return closes, opens
+
+
+_REC_KLASS = None
+
+
+def _rec_handler_class():
+    global _REC_KLASS
+    if _REC_KLASS is not None:
+        return _REC_KLASS
+    from proxy.http.handler import HttpProtocolHandler
+
+    class RecHandler(HttpProtocolHandler):
+        """the real handler; every call the executor makes is recorded as the abstract behaviour
+        (`Beh` of lean/PxModel/Exec.lean) it amounts to"""
+        rec = None
+
+        def initialize(self):
+            self._wid = self.work.connection.fileno()
+            super().initialize()
+
+        async def get_events(self):
+            r = RecHandler.rec
+            try:
+                ev = await super().get_events()
+            except Exception:
+                r.beh(self._wid)['e'] = 'x'
+                raise
+            r.beh(self._wid)['e'] = list(ev.items())
+            return ev
+
+        async def handle_events(self, readables, writables):
+            r = RecHandler.rec
+            b = r.beh(self._wid)
+            r.delivered.append((self._wid, list(readables), list(writables)))
+            before = fd_snapshot()
+            try:
+                res = await super().handle_events(readables, writables)
+                b['t'] = 't' if res else 'f'
+                return res
+            except Exception:
+                b['t'] = 'x'
+                raise
+            finally:
+                closes, opens = fd_diff(before, fd_snapshot())
+                b['o'] = ['c%d' % fd for fd in closes] + ['a%d' % fd for fd in opens]
+
+        def shutdown(self):
+            r = RecHandler.rec
+            b = r.beh(self._wid)
+            before = fd_snapshot()
+            try:
+                super().shutdown()
+            except Exception:
+                b['sx'] = True
+                raise
+            finally:
+                closes, opens = fd_diff(before, fd_snapshot())
+                b['s'] = closes
+
+    _REC_KLASS = RecHandler
+    return RecHandler
+
+
+class Recorder:
+    def __init__(self):
+        self.round = {}
+        self.delivered = []
+
+    def beh(self, wid):
+        return self.round.setdefault(wid, {'e': [], 't': 'f', 'o': [], 's': [], 'sx': False})
+
+    def reset(self):
+        self.round = {}
+        self.delivered = []
+
+
+_DRV = {'pid': None, 'p': None}
+
+
+def driver_eval(line):
+    """one line through a per-process persistent model driver (line-buffered with stdbuf);
+    falls back to a fresh driver process per call"""
+    import shutil
+    import subprocess
+    exe = shutil.which('stdbuf')
+    if exe is None:
+        return common.model_eval([line])[0]
+    for attempt in (0, 1):
+        p = _DRV['p']
+        if _DRV['pid'] != os.getpid() or p is None or p.poll() is not None:
+            p = subprocess.Popen([exe, '-oL', common.DRIVER], stdin=subprocess.PIPE, stdout=subprocess.PIPE)
+            _DRV['p'], _DRV['pid'] = p, os.getpid()
+        try:
+            p.stdin.write((line + '\n').encode())
+            p.stdin.flush()
+            out = p.stdout.readline()
+        except OSError:
+            out = b''
+        if out:
+            return out.decode().rstrip('\n')
+        _DRV['p'] = None
+    return common.model_eval([line])[0]
+
+
+def refine_real(case):
+    """Runs the scenario on the real executor with the real handlers, records for every round the
+    abstract environment the handlers amounted to (events returned, task results, descriptors opened
+    and closed, what shutdown closed, readiness reported by select) and checks that the model, fed that
+    environment, predicts the executor's bookkeeping and the events delivered in every round.
+    Returns 'ok' or a description of the first disagreement."""
+    import gc
+    from proxy.plugin import WebServerPlugin
+    klass = _rec_handler_class()
+    rec = Recorder()
+    klass.rec = rec
+    w = RealWorld(args=REAL_ARGS, tcp=bool(case.get('tcp')), work_klass=klass, plugins=[_rp_plugin(), WebServerPlugin])
+    fd_snapshot.world = w
+    toks = []
+    want = []
+    known = {}
+    state = {'ready': {}}
+    orig_select = w._select
+
+    def sel(timeout=None):
+        evs = orig_select(timeout)
+        state['ready'] = {k.fd: m for k, m in evs}
+        return evs
+    w.ex.selector.select = sel
+    orig_round = w.round
+    orig_reap = w.reap
+    queued = []
+    orig_queue = w.queue
+
+    def queue(sock, addr=('127.0.0.1', 40000)):
+        queued.append(sock.fileno())
+        return orig_queue(sock, addr)
+    w.queue = queue
+
+    def sync_fds():
+        """descriptor changes that happened outside the executor (the peers, new client pairs)"""
+        now = fd_snapshot()
+        closes, opens = fd_diff(known, now)
+        for fd in closes:
+            toks.append('pc:%d' % fd)
+            want.append('ok')
+        for fd in opens:
+            if fd in queued:
+                toks.append('connat:%d:0' % fd)
+                queued.remove(fd)
+            else:
+                toks.append('oa:%d' % fd)
+            want.append('ok')
+        known.clear()
+        known.update(now)
+
+    def beh_toks():
+        out = []
+        for wid, b in rec.round.items():
+            ev = 'x' if b['e'] == 'x' else ('+'.join('%d.%d' % fm for fm in b['e']) or '-')
+            sd = ('+'.join(map(str, b['s'])) or ('' if b['sx'] else '-')) + ('!' if b['sx'] else '')
+            out.append('%d~%s~%s~%s~%s' % (wid, ev, b['t'], '+'.join(b['o']) or '-', sd))
+        return ';'.join(out) or '-'
+
+    def book():
+        return w.state_line().split(' o=')[0]
+
+    def round_(ready=None):
+        if w.dead is not None:
+            return w.dead
+        sync_fds()
+        rec.reset()
+        state['ready'] = {}
+        e = orig_round(ready)
+        toks.append('rnd/%s/-/%s' % (','.join('%d.%d' % kv for kv in state['ready'].items()) or '-', beh_toks()))
+        if e is not None:
+            want.append('dead ' + common.exc_name(e))
+        else:
+            want.append('t=%s %s' % (World._dash(';'.join(
+                '%d:%s:%s' % (a, '+'.join(map(str, r)), '+'.join(map(str, x))) for a, r, x in rec.delivered)), book()))
+        known.clear()
+        known.update(fd_snapshot())
+        return e
+
+    def reap_():
+        if w.dead is not None:
+            return w.dead
+        sync_fds()
+        rec.reset()
+        import proxy.http.handler as H
+        ids = [wid for wid, wk in w.ex.works.items() if wk.is_inactive()]
+        e = orig_reap()
+        toks.append('reap/%s/%s' % (','.join(map(str, ids)) or '-', beh_toks()))
+        want.append('dead ' + common.exc_name(e) if e is not None else book())
+        known.clear()
+        known.update(fd_snapshot())
+        return e
+
+    w.round = round_
+    w.reap = reap_
+    res = {'dead': None, 'canary': {}, 'leaked': [], 'end': None, 'rounds': 0}
+    try:
+        known.update(fd_snapshot())
+        drive(w, case, res)
+    finally:
+        w.close()
+        klass.rec = None
+        fd_snapshot.world = None
+    got = driver_eval('exec 0 ' + ' '.join(toks)).split('|') if toks else []
+    for i, (g, x) in enumerate(zip(got, want)):
+        g2 = g.split(' o=')[0]
+        if g2 != x:
+            return 'refinement-mismatch at op %d (%s): impl %s / model %s' % (i, toks[i][:200], x[:300], g2[:300])
+    if len(got) != len(want):
+        return 'refinement-length %d %d' % (len(got), len(want))
+    return 'ok'
